@@ -177,10 +177,22 @@ class Scen(srvlib.HistGen):
         mine = [x for x in self.sent if x[3] == s.uid]
         if not mine:
             return None
-        if back is None:
-            back = self.rng.choice([1, 1, 2, 3, 4, 5, 8, 14, 15, 16, 29, 30, 31, 40])
-        back = min(back, len(mine), within)
-        ev, name, kind, slot = mine[-back]
+        pick = None
+        if back is None and self.rng.randrange(3) == 0:
+            # aim at the window edges: a query with exactly kd later queries of its own kind
+            kd = self.rng.choice([0, 3, 4, 13, 14, 15, 28, 29, 30])
+            cnt = {'ping': 0, 'data': 0}
+            for x in reversed(mine):
+                if cnt[x[2]] == kd and self.rng.randrange(2):
+                    pick = x
+                    break
+                cnt[x[2]] += 1
+        if pick is None:
+            if back is None:
+                back = self.rng.choice([1, 1, 2, 3, 4, 5, 8, 14, 15, 16, 29, 30, 31, 40])
+            back = min(back, len(mine), within)
+            pick = mine[-back]
+        ev, name, kind, slot = pick
         nm = name
         if flip:
             dom = len(self.domain) + 1
